@@ -340,6 +340,9 @@ def filterRead (st : RState) (w : List Nat) : CallR :=
     | .oob => .oob
     | .more carry ph md => .more { phase := ph, carry := carry, total := st.total, md := md }
     | .fin used carry ph out md =>
+      -- `finish:` the input ended inside the encoded body ("Truncated uuencoded data: missing end marker")
+      if out = [] ∧ ravail = 0 ∧ (ph = .readUU ∨ ph = .readB64) then .fatal
+      else
       -- `if (ravail < avail_in) used -= avail_in - ravail;`
       .ret out ((used : Int) - ((buf.length : Int) - ravail))
         { phase := ph, carry := carry, total := st.total + out.length, md := md }
